@@ -126,6 +126,8 @@ impl RegionMetadata {
             return Err(Error::RegionMetadataUnwritten);
         }
         // Schedule writeback, then mark clean. Caller ensures durability via sync_data().
+        #[cfg(feature = "verif_hooks")]
+        crate::verif::io(|| crate::verif::IoEvent::FlushAsync { file: crate::verif::FileId::Regions, offset: index * SIZE_OF_REGION_METADATA, len: SIZE_OF_REGION_METADATA });
         regions
             .mmap()
             .flush_async_range(index * SIZE_OF_REGION_METADATA, SIZE_OF_REGION_METADATA)?;
